@@ -123,6 +123,8 @@ def gen_ann(rng, kinds, names, hooks, deps, depth=0):
         return ["ph", rng.choice(names)]
     if k == "d" and deps:
         return ["d", rng.choice(names), rng.choice(deps)]
+    if k == "w":
+        return ["w"]
     return ["c", rng.choice(names)]
 
 
